@@ -14,7 +14,7 @@ RULE = ('stall/drain episodes (pause_writing / resume_writing, also resume+pause
         'subscribers, interleaved with publishes, other traffic, Lost/EOF, in virtual time (1 s ticks: 1, 30, 59, 60, 61); '
         'non-trivial = at least one stall episode and one PUBLISH delivered; compared with the Coq model on aspects %s; oracle: the '
         'harness\'s own clock says when each stalled transport must be closed (start + 60 s, not earlier, not if drained) and '
-        'that it is sent OP_ERROR; frame-normalised histories are also judged by harness/judge.py (every publish reaches every other entitled subscriber exactly once while connections are stalled or have been dropped); plus a sub-second probe of the real Connection')
+        'that it is sent OP_ERROR; frame-normalised histories are also judged by harness/judge.py (every publish reaches every other entitled subscriber exactly once while connections are stalled or have been dropped); a directed scenario in which the stalled subscriber goes on sending (valid re-authentication under another identity, (un)subscribes) before its deadline; plus a sub-second probe of the real Connection')
 PLAN = [(120, 3000, dict(profile='benign', nconn=3, nops=6), False),
         (50, 1200, dict(profile='benign', nconn=4, nops=8, chunking='frames'), True),
         (60, 1500, dict(profile='mixed', faults=0.02), False)]
@@ -36,6 +36,44 @@ def with_stalls(rng, case):
         ev.append(['T', rng.choice([1, 30, 59, 60, 61])])
     case['events'] = ev
     return case
+
+
+def gen_stall_reauth(rng):
+    """directed: a subscriber stalls, and WHILE stalled it goes on sending - a valid re-authentication under another
+    identity, (un)subscribes, publishes - then time runs past the deadline of the stall; another subscriber listens"""
+    import hpfeeds.protocol as P
+    table = broker.DB_TABLES[0]
+    nonces = [bytes(rng.randrange(256) for _ in range(4)) for _ in range(3)]
+    first, second = rng.choice([('alice', 'bob'), ('bob', 'alice'), ('ali', 'carol'), ('alice', 'carol'), ('bob', 'ali')])
+
+    def auth(q, ident):
+        return broker.auth_frame(ident, broker.digest(nonces[q], table[ident][0]))
+    ev = [['C', q, broker.jbytes(nonces[q])] for q in range(3)]
+    ev.append(['D', 0, broker.jbytes(auth(0, first))])
+    for c in table[first][2][:2]:
+        ev.append(['D', 0, broker.jbytes(P.msgsubscribe(first, c))])
+    ev.append(['D', 1, broker.jbytes(auth(1, 'alice'))])
+    ev.append(['D', 1, broker.jbytes(P.msgsubscribe('alice', 'x'))])
+    ev.append(['D', 2, broker.jbytes(auth(2, 'bob'))])
+    ev.append(['PW', 0])
+    k = rng.choice([1, 10, 30, 45, 59])
+    ev.append(['T', k])
+    todo = [auth(0, second)] if rng.random() < 0.8 else []
+    for _ in range(rng.randint(0, 2)):
+        c = rng.choice(['x', 'y', 'z'])
+        todo.append(rng.choice([P.msgsubscribe(second, c), P.msgunsubscribe(second, c)]))
+    for f in todo:
+        ev.append(['D', 0, broker.jbytes(f)])
+        if rng.random() < 0.3:
+            ev.append(['D', 2, broker.jbytes(P.msgpublish('bob', 'x', b'tick'))])
+    rest = 60 - k
+    if rest > 1 and rng.random() < 0.5:
+        a = rng.randrange(1, rest)
+        ev += [['T', a], ['D', 2, broker.jbytes(P.msgpublish('bob', 'x', b'tock'))], ['T', rest - a]]
+    else:
+        ev.append(['T', rest])
+    ev += [['D', 2, broker.jbytes(P.msgpublish('bob', 'x', b'after'))], ['T', rng.choice([1, 30, 60])]]
+    return dict(name=broker.jbytes(b'hpfeeds'), db=broker.jdb(table), async_=False, events=ev)
 
 
 def deadline_oracle(case, d):
@@ -135,6 +173,10 @@ def run(ctx, res):
         res.count('subsecond_probe')
         if p:
             res.failures.append(dict(signature='C15: ' + p, what=p, case=dict(probe='subsecond')))
+    for k in range(ctx.n(30, 400)):
+        case = gen_stall_reauth(ctx.rng('C15/stall_reauth/%d' % k))
+        res.count('stall_reauth')
+        B.add_case(ctx, res, 'C15', cases, case, False, extra_oracle=deadline_oracle)
     for pi, (nq, nt, kw, use_judge) in enumerate(PLAN):
         for k in range(ctx.n(nq, nt)):
             rng = ctx.rng('C15/%d/%d' % (pi, k))
